@@ -105,7 +105,7 @@ def _site_statements(sp):
         ("tonl-shadow", "if Mock := func() int { return 1 }; Mock() > 0 {}"),
         ("pkgo-func", "_ = %sInternal()" % q), ("pkgo-func-bare", "_ = %sBareOnly()" % q), ("pkgo-func-path", "_ = %sByPath()" % q),
         ("pkgo-func-free", "_ = %sFree()" % q), ("pkgo-method", "_ = s.Open()"), ("pkgo-method-value", "g# := s.Open; _ = g#"),
-        ("pkgo-method-free", "_ = s.Peek()"), ("pkgo-type-var", "var sv# %s; _ = sv#" % S), ("pkgo-type-lit", "_ = %s{}" % S),
+        ("pkgo-method-free", "_ = s.Peek()"), ("pkgo-method-samename", "_ = h.Open()"), ("pkgo-type-var", "var sv# %s; _ = sv#" % S), ("pkgo-type-lit", "_ = %s{}" % S),
         ("pkgo-type-conv", "_ = (*%s)(nil)" % S),
         ("hidden-elided", "_ = %sHiddenList{{}, {V: 1}}" % q), ("hidden-elided-ptr", "_ = %sHiddenPtrs{{}}" % q),
         ("hidden-alias-lit", "_ = %sHiddenAlias{}" % q), ("hidden-alias-var", "var hz# %sHiddenAlias; _ = hz#" % q),
@@ -161,6 +161,8 @@ def gen_decl_package(W, rng, full=False):
     W.add("d", "funcs.go", Decl("Secret.Open", ["func (s *Secret) Open() int { return s.V }"],
                                 doc=pick([["// @packageonly " + allow_name], ["// @packageonly"], ["// Open is open."]])))
     W.add("d", "funcs.go", Decl("Secret.Peek", ["func (s *Secret) Peek() int { return s.V }"]))
+    # the same method name on another type, annotated differently: annotations are per (receiver type, method)
+    W.add("d", "funcs.go", Decl("H.Open", ["func (h *H) Open() int { return h.N }"], doc=pick([["// @packageonly x/y"], ["// @packageonly " + allow_name, "// @packageonly x/y"], ["// Open is open."]])))
     W.add("d", "funcs.go", Decl("T.Set", ["func (r *T) Set(o *U) {", "\t/*@" + W.wid + "d-method-write:imm-assign*/ r.F = 5", "\t/*@" + W.wid + "d-recv-overwrite:recv*/ *r = T{}",
                                           "\t{", "\t\tr := o", "\t\t/*@" + W.wid + "d-shadow-overwrite:shadow*/ *r = U{}", "\t}", "}"]))
     W.add("d", "funcs.go", Decl("T.Val", ["func (r T) Val() int {", "\t/*@" + W.wid + "d-valrecv-write:imm-assign*/ r.F = 6", "\treturn r.F", "}"]))
@@ -381,7 +383,7 @@ def near_miss(rng, line, stats=None):
     if not m or m.group(2) not in KEYWORDS:
         return [line]
     ind, kw, rest = m.group(1), m.group(2), m.group(3)
-    kind = rng.choice(["mid-sentence", "capitalised", "upper", "longer-word", "block-comment", "split", "prefixed-word", "commented-out", "quoted"])
+    kind = rng.choice(["mid-sentence", "capitalised", "upper", "longer-word", "block-comment", "split", "prefixed-word", "commented-out", "quoted", "double-slash", "triple-slash", "slash-blank-slash"])
     if stats is not None:
         stats.setdefault("near_miss", {})
         stats["near_miss"][kind] = stats["near_miss"].get(kind, 0) + 1
@@ -395,6 +397,9 @@ def near_miss(rng, line, stats=None):
         "prefixed-word": ind + "// x@" + kw + rest if False else ind + "// not@" + kw + rest,
         "commented-out": ind + "// TODO: re-enable: // @" + kw + rest,
         "quoted": ind + "// the line \"// @" + kw + rest + "\" used to be here",
+        "double-slash": ind + "// // @" + kw + rest,
+        "triple-slash": ind + "/// @" + kw + rest,
+        "slash-blank-slash": ind + "// / @" + kw + rest,
     }[kind]
     return [out]
 
@@ -426,6 +431,8 @@ def nearmiss_world(rng, wid, modroot="w", stats=None):
     # annotations on local declarations
     W.add("u", sorted(W.pkgs["u"]["files"])[0], Decl("localAnnotated", ["func localAnnotated() {", "\t// @immutable", "\t// @constructor nope", "\ttype lt struct{ F int }",
                                                                        "\tv := lt{}", "\tv.F = 1", "\t_ = v", "}"]))
+    W.add("u", sorted(W.pkgs["u"]["files"])[0], Decl("localInClosure", ["var localInClosure = func() int {", "\t// @immutable", "\t// @constructor nope", "\t// @testonly", "\ttype acc struct{ F int }",
+                                                                         "\tv := acc{}", "\tv.F = 1", "\tv.F++", "\treturn v.F", "}()"]))
     return W
 
 
@@ -517,7 +524,7 @@ def render(W, outdir, rng=None, layout=None, edit=None):
                     lines.append("")
                 if layout.get("unrelated_ignores") and rng is not None and rng.random() < 0.25 and not dec.doc:
                     # an @ignore of an unknown code: creates a scoped marker without changing any verdict
-                    lines.append("// @ignore X9")
+                    lines.append(rng.choice(["// @ignore X9", "// @ignore X9", "// @ignore IMM01", "// @ignore CTOR", "// @ignore TONL02, PKGO"]))
                 lines += dec.doc
                 pkg_ign = layout.get("pkg_ignores") and dec.id.startswith("pkglvl-") and len(dec.lines) == 1 and zlib.crc32(dec.id.encode()) % 3 == 0
                 for l in dec.lines:
